@@ -151,7 +151,7 @@ def build(tier, seed, only=None):
     for f in live:
         o = Ob('C02.%s.%s' % (f['cls'].split('::')[-1], f['id']), u, None, 'h_' + f['cid'],
                '%s::%s(%s): every operand, flag and the given type are read back through the interface accessors (real final overriders, dynamic dispatch); category code of the interface class' % (f['cls'], f['name'], ', '.join(f['params'])),
-               kind='K1', replay='C02', timeout=600, flags=['--unwind', '10'], objbits=12)
+               kind='K1', replay='C02', timeout=600, flags=['--unwind', '12'], objbits=12)
         o.gen = mkgen(f); obs.append(o)
     meta = dict(sweep_family='C02', functions_under_contract=sorted(f['cls'] + '::' + f['name'] for f in live),
                 factories_catalogued=len(facs), factories_covered=len(live), driver=os.path.join(work, 'c02_driver.cxx'), factories_not_covered=uncovered,
